@@ -244,9 +244,9 @@ pub fn c17(ctx: &Ctx) -> (CheckMeta, Outcome) {
         out
     }));
     let thorough = ctx.thorough;
-    let half: i128 = 1 << 16;
-    // 32 bits: complete in thorough (split in 64 ranges), windows in quick
-    if thorough {
+    let half: i128 = if thorough { 1 << 20 } else { 1 << 16 };
+    // 32 bits: complete (split in 64 ranges)
+    if true {
         for part in 0..64i64 {
             tasks.push(Box::new(move || {
                 let mut out = Outcome::new();
@@ -289,7 +289,7 @@ pub fn c17(ctx: &Ctx) -> (CheckMeta, Outcome) {
     let meta = CheckMeta {
         property: "C17".into(),
         level: "exploration".into(),
-        rule: "complete enumeration of i8/u8 and i16/u16 (and of all 2^32 values of i32/u32 in the thorough tier); for 32 (quick), 64, 128 bits and pointer size every bit pattern within 2^16 of 0, MIN, MAX, all-ones and of every power of two; oracle: the closed formulas (x >= 0 -> 2x, x < 0 -> 2*(!x)+1 = -2x-1; n even -> n/2, n odd -> !(n/2)) and mutual inversion in both directions; non-trivial = negative or > 100".into(),
+        rule: "complete enumeration of i8/u8, i16/u16 and i32/u32 (all 2^32 values); for 64, 128 bits and pointer size every bit pattern within 2^16 (thorough 2^20) of 0, MIN, MAX, all-ones and of every power of two; oracle: the closed formulas (x >= 0 -> 2x, x < 0 -> 2*(!x)+1 = -2x-1; n even -> n/2, n odd -> !(n/2)) and mutual inversion in both directions; non-trivial = negative or > 100".into(),
         assumptions: vec![],
     };
     (meta, out)
@@ -459,6 +459,67 @@ pub fn c18(ctx: &Ctx) -> (CheckMeta, Outcome) {
             out
         }));
     }
+    {
+        // ALL terminated strings of length 4 (128^4 = 268 435 456 per variant); thorough: also length 5 (128^5)
+        let lens: Vec<usize> = if thorough { vec![4, 5] } else { vec![4] };
+        for len in lens {
+            for first in 0..128u32 {
+                for second in 0..128u32 {
+                    if len == 4 && second % 16 != 0 {
+                        continue; // length 4: one task covers 16 second bytes
+                    }
+                    tasks.push(Box::new(move || {
+                        let mut out = Outcome::new();
+                        out.cov.configs.insert(format!("completeness-len{}", len));
+                        let seconds: Vec<u32> = if len == 4 { (second..second + 16).collect() } else { vec![second] };
+                        let mut s = [0u8; 5];
+                        s[0] = first as u8 | 0x80;
+                        let mut n_eval = 0u64;
+                        for b in seconds {
+                            s[1] = b as u8 | 0x80;
+                            for c in 0..128u32 {
+                                s[2] = c as u8 | 0x80;
+                                for d in 0..128u32 {
+                                    let last_range: Vec<u32> = if len == 4 { vec![0] } else { (0..128).collect() };
+                                    if len == 4 {
+                                        s[3] = d as u8;
+                                    } else {
+                                        s[3] = d as u8 | 0x80;
+                                    }
+                                    for e5 in last_range {
+                                        if len == 5 {
+                                            s[4] = e5 as u8;
+                                        }
+                                        let st = &s[..len];
+                                        for big in [true, false] {
+                                            let mut cur = std::io::Cursor::new(st);
+                                            let r = if big { vbyte_read_be(&mut cur) } else { vbyte_read_le(&mut cur) };
+                                            let ok = match r {
+                                                Ok(val) => {
+                                                    let mut buf = [0u8; 12];
+                                                    let mut w = std::io::Cursor::new(&mut buf[..]);
+                                                    let n = if big { vbyte_write_be(val, &mut w) } else { vbyte_write_le(val, &mut w) };
+                                                    n.ok() == Some(len) && &buf[..len] == st
+                                                }
+                                                Err(_) => false,
+                                            };
+                                            if !ok && out.violations.len() < 5 {
+                                                out.violations.push(v("C18", "vbyte-complete", if big { "be".into() } else { "le".into() }, "decode-encode", "value", format!("terminated string {} does not decode to a value whose encoding is the same string", crate::util::hex(st)), json!({"kind": "none"})));
+                                            }
+                                        }
+                                        n_eval += 1;
+                                    }
+                                }
+                            }
+                        }
+                        out.cov.evaluations += n_eval;
+                        out.cov.nontrivial += n_eval;
+                        out
+                    }));
+                }
+            }
+        }
+    }
     // longer strings (seeded) whose value fits 64 bits
     tasks.push(Box::new(move || {
         let mut out = Outcome::new();
@@ -502,7 +563,7 @@ pub fn c18(ctx: &Ctx) -> (CheckMeta, Outcome) {
     let meta = CheckMeta {
         property: "C18".into(),
         level: "exploration".into(),
-        rule: "(1) every value below 2^21, every length-step boundary +-2 up to 10 bytes, 2^64-1 and seeded values: vbyte_write_be/le and the generic vbyte_write::<E> vs the reference (offset definition of the complete code), returned length, byte_len_vbyte/bit_len_vbyte, vbyte_read_* inversion and bytes consumed; (2) bit-stream write_vbyte_be/le at byte-aligned positions (0, 1, 3 leading bytes) for both stream endiannesses and every writer word 8..128 vs the io functions, read back with the bit-stream trait; (3) completeness: ALL 2 113 664 terminated byte strings of length <= 3 (both variants) and 200 000 seeded longer ones decode to a value whose encoding is the same string (hence distinct strings <-> distinct values); non-trivial = multi-byte".into(),
+        rule: "(1) every value below 2^21, every length-step boundary +-2 up to 10 bytes, 2^64-1 and seeded values: vbyte_write_be/le and the generic vbyte_write::<E> vs the reference (offset definition of the complete code), returned length, byte_len_vbyte/bit_len_vbyte, vbyte_read_* inversion and bytes consumed; (2) bit-stream write_vbyte_be/le at byte-aligned positions (0, 1, 3 leading bytes) for both stream endiannesses and every writer word 8..128 vs the io functions, read back with the bit-stream trait; (3) completeness: ALL 2 113 664 terminated byte strings of length <= 3 and all 268 435 456 of length 4 (thorough: also all 2^35 of length 5) (both variants) and 200 000 seeded longer ones decode to a value whose encoding is the same string (hence distinct strings <-> distinct values); non-trivial = multi-byte".into(),
         assumptions: vec![],
     };
     (meta, out)
@@ -797,6 +858,7 @@ pub fn c20(ctx: &Ctx) -> (CheckMeta, Outcome) {
     // (4) synthetic monotone step functions with <= 3 steps on the grid (includes constants)
     let grid = step_grid();
     let g = grid.len();
+    let max_steps: usize = if ctx.thorough { 6 } else { 5 };
     for a in 0..=g {
         let grid = grid.clone();
         tasks.push(Box::new(move || {
@@ -810,7 +872,7 @@ pub fn c20(ctx: &Ctx) -> (CheckMeta, Outcome) {
                 if !steps.is_empty() {
                     out.cov.nontrivial += 1;
                 }
-                match change_points(&f, 100_000, 10) {
+                match change_points(&f, 100_000, 16) {
                     Ok(items) => {
                         if let Err(d) = judge_points(&items, &f, Some(&steps)) {
                             if out.violations.len() < 10 {
@@ -831,13 +893,21 @@ pub fn c20(ctx: &Ctx) -> (CheckMeta, Outcome) {
                 out.cov.sample(json!({"steps": [], "function": "constant 3"}));
                 return out;
             }
-            run(vec![grid[a]], &mut out);
-            for b in a + 1..g {
-                run(vec![grid[a], grid[b]], &mut out);
-                for c in b + 1..g {
-                    run(vec![grid[a], grid[b], grid[c]], &mut out);
+            // every subset of the grid whose smallest element is grid[a], up to max_steps elements
+            fn rec(grid: &[u64], start: usize, cur: &mut Vec<u64>, max_steps: usize, run: &mut dyn FnMut(Vec<u64>)) {
+                run(cur.clone());
+                if cur.len() == max_steps {
+                    return;
+                }
+                for i in start..grid.len() {
+                    cur.push(grid[i]);
+                    rec(grid, i + 1, cur, max_steps, run);
+                    cur.pop();
                 }
             }
+            let mut cur = vec![grid[a]];
+            let mut runner = |st: Vec<u64>| run(st, &mut out);
+            rec(&grid, a + 1, &mut cur, max_steps, &mut runner);
             if a == 3 {
                 out.cov.sample(json!({"steps": [grid[a], grid[a + 5], grid[g - 3]]}));
             }
@@ -848,7 +918,7 @@ pub fn c20(ctx: &Ctx) -> (CheckMeta, Outcome) {
     let meta = CheckMeta {
         property: "C20".into(),
         level: "exploration".into(),
-        rule: "(1) every library length function (unary, gamma, delta, omega, vbyte, zeta/pi/rice/exp-golomb with parameters 0..=16, 31, 63, golomb 1..=64 and six larger moduli): len(v) <= len(v+1) for all v below 2^20 (thorough 2^21) and within 2^10 of every power of two; Kraft sum of the dense prefix in exact arithmetic (numerator over 2^(2^21)) must not exceed 1; (2) FindChangePoints on each of those functions, driven through a closure with a 200 000-call budget: first item (0, f(0)), strictly increasing, every item a true change point with the new value, none of the true change points of the dense prefix missed, iteration ends; (3) get_implied_distribution terminates for each code and its probabilities are 2^-len x run length, and sample_implied_distribution can be set up (seeded rng) and yields 16 values whose codewords are at most 128 bits; (4) ALL synthetic non-decreasing step functions with at most 3 steps at positions from a 39-point grid (1..9, around 2^7, 2^16, 2^20, 2^31..2^33, 2^47, 2^62, 2^63 +-1, beyond 2^63, 2^64-2), including the constant function: same oracle, every step <= 2^63 must be reported; non-trivial = value at which a length steps / function with at least one step".into(),
+        rule: "(1) every library length function (unary, gamma, delta, omega, vbyte, zeta/pi/rice/exp-golomb with parameters 0..=16, 31, 63, golomb 1..=64 and six larger moduli): len(v) <= len(v+1) for all v below 2^20 (thorough 2^21) and within 2^10 of every power of two; Kraft sum of the dense prefix in exact arithmetic (numerator over 2^(2^21)) must not exceed 1; (2) FindChangePoints on each of those functions, driven through a closure with a 200 000-call budget: first item (0, f(0)), strictly increasing, every item a true change point with the new value, none of the true change points of the dense prefix missed, iteration ends; (3) get_implied_distribution terminates for each code and its probabilities are 2^-len x run length, and sample_implied_distribution can be set up (seeded rng) and yields 16 values whose codewords are at most 128 bits; (4) ALL synthetic non-decreasing step functions with at most 5 (thorough: 6) steps at positions from a 39-point grid (1..9, around 2^7, 2^16, 2^20, 2^31..2^33, 2^47, 2^62, 2^63 +-1, beyond 2^63, 2^64-2), including the constant function: same oracle, every step <= 2^63 must be reported; non-trivial = value at which a length steps / function with at least one step".into(),
         assumptions: vec!["Kraft terms below 2^-(2^21) are ignored (only possible for unary-like codes beyond the dense prefix)".into()],
     };
     (meta, out)
